@@ -590,6 +590,33 @@ theorem mime_match_text (t s t' s' : Str) (ps ps' : List Str)
     (by rw [hv]; exact n3) (by rw [hv]; exact n4)
   rw [this, hi, hv]
 
+/-- Parameters are a set: matching is invariant under any reordering of the parameters of the
+client's range and of the offer (well-formed text; wildcards allowed on either side). An offer that
+spells `level=1;charset=utf-8` as `charset=utf-8;level=1` matches exactly the same ranges. -/
+theorem mime_match_param_order_irrelevant (t s t' s' : Str) (ps ps2 ps' ps2' : List Str)
+    (ht : NoDelim t) (hs : NoDelim s) (hps : ∀ p ∈ ps, NoDelim p)
+    (ht' : NoDelim t') (hs' : NoDelim s') (hps' : ∀ p ∈ ps', NoDelim p)
+    (lt : IsLower t) (ls : IsLower s) (lps : ∀ p ∈ ps, IsLower p)
+    (lt' : IsLower t') (ls' : IsLower s') (lps' : ∀ p ∈ ps', IsLower p)
+    (hperm : ps.Perm ps2) (hperm' : ps'.Perm ps2') :
+    mimeMatches (renderMime t' s' ps2') (renderMime t s ps2) =
+      mimeMatches (renderMime t' s' ps') (renderMime t s ps) := by
+  have hi := mimeNorm_render t s ps ht hs hps lt ls lps
+  have hv := mimeNorm_render t' s' ps' ht' hs' hps' lt' ls' lps'
+  have hi2 := mimeNorm_render t s ps2 ht hs (fun p hp => hps p (hperm.mem_iff.mpr hp)) lt ls
+    (fun p hp => lps p (hperm.mem_iff.mpr hp))
+  have hv2 := mimeNorm_render t' s' ps2' ht' hs' (fun p hp => hps' p (hperm'.mem_iff.mpr hp)) lt' ls'
+    (fun p hp => lps' p (hperm'.mem_iff.mpr hp))
+  have hp : ps2.isPerm ps2' = ps.isPerm ps' := by
+    rw [Bool.eq_iff_iff, List.isPerm_iff, List.isPerm_iff]
+    exact ⟨fun h => hperm.trans (h.trans hperm'.symm), fun h => hperm.symm.trans (h.trans hperm')⟩
+  unfold mimeMatches
+  simp only [hasSlash_render, hi, hv, hi2, hv2, hp]
+
+example : mimeMatches "text/html; charset=utf-8; level=1".toList "text/html; level=1; charset=utf-8".toList = true ∧
+    ["level=1".toList, "charset=utf-8".toList].Perm ["charset=utf-8".toList, "level=1".toList] :=
+  ⟨by decide, List.Perm.swap _ _ _⟩
+
 /-- ... a `t/*` range matches exactly the offers of type `t`, whatever their parameters. -/
 theorem mime_match_text_subtype_wildcard (t t' s' : Str) (ps' : List Str)
     (ht : NoDelim t) (ht' : NoDelim t') (hs' : NoDelim s') (hps' : ∀ p ∈ ps', NoDelim p)
